@@ -315,7 +315,7 @@ def one_shard_ctx(ttl, step, kinds, spare, regpat, size, rng, sid_=1):
                 tag="one:%s/sp%d/rp%d/sz%s" % ("".join(kinds), spare, regpat, size))
 
 
-def gen_one_shard(ck, ttl, step, max_members, budget, kinds=None):
+def gen_one_shard(ck, ttl, step, max_members, budget, kinds=None, prefer=None):
     """every multiset of member kinds (<= max_members) x spare pattern x region pattern x defined size in {m-1, m};
     if that exceeds the budget the 5-member part is sampled"""
     rng = ck.rng
@@ -332,13 +332,14 @@ def gen_one_shard(ck, ttl, step, max_members, budget, kinds=None):
                         out.append((kinds, spare, regpat, size))
     full = len(out)
     if len(out) > budget:
-        small = [x for x in out if len(x[0]) <= 4]
-        big = [x for x in out if len(x[0]) > 4]
-        rng.shuffle(big)
-        out = small + big[:max(0, budget - len(small))]
-        if len(out) > budget:
-            rng.shuffle(out)
-            out = out[:budget]
+        # kept in full: the preferred multisets (if any) and everything with <= 4 members; the rest is sampled
+        keep = [x for x in out if (prefer(x[0]) if prefer else len(x[0]) <= 4)]
+        rest = [x for x in out if not (prefer(x[0]) if prefer else len(x[0]) <= 4)]
+        rng.shuffle(rest)
+        if len(keep) > budget:
+            rng.shuffle(keep)
+            keep = keep[:budget]
+        out = keep + rest[:max(0, budget - len(keep))]
     ctxs = []
     for (kinds, spare, regpat, size) in out:
         kk = list(kinds)
@@ -399,7 +400,7 @@ def gen_random_ctx(rng, ttl, step, nshards=None):
     rng.shuffle(hl)
     rng.shuffle(view)
     return dict(tick=T, defs=defs, view=view, hosts=hl, kill=kill, ints=[rng.randrange(0, 1 << 30) for _ in range(6)],
-                u64s=[5000 + rng.randrange(100000) for _ in range(4)], json=rng.choice([0, 1]), tag="rnd%d" % nsh)
+                u64s=[5000 + rng.randrange(100000) for _ in range(4)], json=rng.choice([0, 1]), tag="rnd%d" % nsh, canon=1)
 
 
 # ------------------------------------------------------------------ engine
@@ -443,12 +444,12 @@ class Engine:
         hdr = ("From stdpp Require Import gmap list numbers.\nFrom Drummer.Model Require Import DB Sched SchedRun.\nLocal Open Scope N_scope.\n"
                "Definition P := mkParams %d %d 24.\n" % (self.ttl, self.step))
         n = len(ctxs)
-        nsh = nshards if n > 400 else 2
+        nsh = max(nshards if n > 400 else 2, (n + 799) // 800)     # <= 800 cases per coqc job
         idx = [list(range(i, n, nsh)) for i in range(nsh)]
         idx = [x for x in idx if x]
         jobs = []
         for si, ix in enumerate(idx):
-            body = ";\n".join("scase P %s %s" % (ctx_coq(ctxs[i]), obs_coq(obs[i])) for i in ix)
+            body = ";\n".join("%s P %s %s" % ("scase_canon" if ctxs[i].get("canon") else "scase", ctx_coq(ctxs[i]), obs_coq(obs[i])) for i in ix)
             # Coq's numeral parser is slow (0.2 ms per literal): name every distinct number once
             nums = set()
 
@@ -497,7 +498,7 @@ def load_corpus(pid):
         j = json.load(open(p))
         for c in (j["contexts"] if "contexts" in j else [j["context"]]):
             c = normalize_ctx(c)
-            c["tag"] = "corpus:" + os.path.basename(p)
+            c["tag"] = "corpus:%s:%s" % (os.path.basename(p), c["tag"])
             out.append(c)
     return out
 
@@ -505,9 +506,12 @@ def load_corpus(pid):
 def run_property(ck, eng, ctxs, monitor, proofs_ok, what):
     """monitor(view, reqs) -> (bad [(name, detail)], known [(id, detail)]).  Runs the implementation, the monitors and
     the model on every context; reports violations / known findings / coverage."""
+    import time
+    t0 = time.time()
     obs = eng.run_go(ctxs)
     if obs is None:
         return None
+    ck.cov.setdefault("timing", {})["go_s"] = round(time.time() - t0, 1)
     stats = {"batches": 0, "errors": 0, "panics": 0, "requests": {"create_restore": 0, "create_join": 0, "delete": 0, "add": 0, "kill": 0},
              "empty_batches": 0}
     known_seen = {}
@@ -553,7 +557,9 @@ def run_property(ck, eng, ctxs, monitor, proofs_ok, what):
             ck.sample({"go_input_line": ctx_line(ctxs[i]), "observed": obs[i] if obs[i][0] != "B" else {"batch": obs[i][1]}})
     if not proofs_ok:
         return obs
+    t0 = time.time()
     mm = eng.run_model(ctxs, obs)
+    ck.cov["timing"]["model_s"] = round(time.time() - t0, 1)
     if mm is None:
         return obs
     ck.cov["traces_validated_against_impl"] = ck.cov.get("traces_validated_against_impl", 0) + len(ctxs)
